@@ -9,7 +9,7 @@
    positions inside the base, and nested slices only over views (no slice of a copying slice).
    wf_net is "acyclic wiring": every signal has at most one writer and is read only after it was written. *)
 From Coq Require Import ZArith List Bool Arith.
-From Pymoto Require Import Base.Num Model.Net Proofs.NetP.
+From Pymoto Require Import Base.Num Model.Net Model.NetBuild Proofs.NetP Proofs.NetBuildP.
 Import ListNotations.
 
 Definition comm_ring (K : Type) `{Num K} : Prop := ring_theory nzero none_ nadd nmul nsub nopp (@eq K).
@@ -127,6 +127,84 @@ Theorem C02_described_network :
     = pairing_on (sources N (flatten (to_node s))) (bwd_node dims (to_node s) c) t.
 Proof. exact (@described_network_adjoint). Qed.
 Print Assumptions C02_described_network.
+
+(* ---- construction order (Model/NetBuild.v).  A Network object stores, besides its members, the attribute lists
+   sig_in / sig_out that ITS OWN last append() computed from the attributes its members had at that moment; a network
+   that is extended after it was placed in a parent leaves the parent's lists stale.  Network.response / .sensitivity
+   read self.mods and self.print_timing only (obj_node = ofold NMod NNet), hence: *)
+
+(* two objects with the same member tree (stored lists blanked by `bare`) respond and backpropagate alike *)
+Theorem C02_behaviour_is_a_function_of_the_member_tree :
+  forall (K : Type) (NK : Num K) (dims : nat -> nat) (o1 o2 : obj (module K)), bare o1 = bare o2 ->
+    (forall t, fwd_obj o1 t = fwd_obj o2 t) /\ (forall c, bwd_obj dims o1 c = bwd_obj dims o2 c).
+Proof. exact (@behaviour_members_only). Qed.
+Print Assumptions C02_behaviour_is_a_function_of_the_member_tree.
+
+(* along ANY history of append() calls over a pool of objects (modules, empty or filled networks; appends to networks
+   that are already members of others), the member trees never depend on what the stored lists contain *)
+Theorem C02_history_member_trees_ignore_stored_lists :
+  forall (A : Type) (a_ins : A -> list ref) (a_outs : A -> list nat) (ops : list bop) (st : list (option (obj A))),
+    map (option_map bare) (run_history a_ins a_outs ops st)
+    = map (option_map bare) (run_history a_ins a_outs ops (map (option_map bare) st)).
+Proof. exact (@bares_run_history). Qed.
+Print Assumptions C02_history_member_trees_ignore_stored_lists.
+
+(* outer.append(x) first and (network at p below x).append(y) afterwards  =  the append into x first, nesting after *)
+Theorem C02_fill_after_nesting_same_behaviour :
+  forall (K : Type) (NK : Num K) (dims : nat -> nat) (tm : timing) (si : list ref) (so : list nat)
+         (l : list (obj (module K))) (x y : obj (module K)) (p : list nat),
+    let late := mappend_at (length l :: p) y (append_here (@m_ins K) (fun m => m_outs m) x (ONet tm si so l)) in
+    let early := append_here (@m_ins K) (fun m => m_outs m) (mappend_at p y x) (ONet tm si so l) in
+    (forall t, fwd_obj late t = fwd_obj early t) /\ (forall c, bwd_obj dims late c = bwd_obj dims early c).
+Proof. exact (@fill_after_nesting_same_behaviour). Qed.
+Print Assumptions C02_fill_after_nesting_same_behaviour.
+
+(* the main theorem for a network of block-matrix modules put together by any history (every history case of the
+   correspondence is of this form: Coq replays the history, then evaluates the model on the object it produced) *)
+Theorem C02_built_network_total_derivative :
+  forall (K : Type) (NK : Num K), comm_ring K ->
+  forall (dims : nat -> nat) (N : nat) (ops : list bop) (st : list (option (obj (@spec K)))) (o : obj (@spec K))
+         (c : cenv K) (t : tenv K),
+    sbuilt ops st = Some o -> net_ok N dims (obj_stree o) = true -> wt_cot dims c -> wt_tan dims t ->
+    pairing_on (seq 0 N) c (fwd_node (to_node (obj_stree o)) t)
+    = pairing_on (sources N (flatten (to_node (obj_stree o)))) (bwd_node dims (to_node (obj_stree o)) c) t.
+Proof. exact (fun K NK Kr dims N ops st o c t => @built_network_adjoint K NK Kr dims N ops st o c t). Qed.
+Print Assumptions C02_built_network_total_derivative.
+
+(* a module without outputs (a sink; one that hands out sensitivities of its own) is never skipped *)
+Theorem C02_zero_output_module_never_skipped :
+  forall (K : Type) (NK : Num K) (dims : nat -> nat) (m : module K) (c : cenv K),
+    m_outs m = [] -> bwd_mod dims m c = apply_adj dims m [] c.
+Proof. exact (@zero_output_never_skipped). Qed.
+Print Assumptions C02_zero_output_module_never_skipped.
+
+(* ---- value types.  Signal.add_sensitivity has three accumulation branches: `+=` (ndarray, scalar, DyadCarrier, user
+   classes with __iadd__), the user class's own add_sensitivity() whose return value (None, or the object) is dropped;
+   sig_add is that code, add_sens what the network model uses: they agree for every kind ... *)
+Theorem C02_accumulation_kind_irrelevant :
+  forall (K : Type) (NK : Num K) (dims : nat -> nat) (k : acc_kind) (c : cenv K) (s : nat) (ds : option (vec K)),
+    add_sens dims c (RSig s) ds s = sig_add k (c s) ds.
+Proof. exact (@sig_add_kind_irrelevant). Qed.
+Print Assumptions C02_accumulation_kind_irrelevant.
+
+(* ... and contributions arriving along several paths are summed, each once, whatever the kind *)
+Theorem C02_paths_summed_for_every_kind :
+  forall (K : Type) (NK : Num K) (k : acc_kind) (ds : list (vec K)) (d : vec K),
+    fold_left (sig_add k) (map Some ds) (Some d) = Some (fold_left vadd ds d).
+Proof. exact (@sig_add_paths). Qed.
+Print Assumptions C02_paths_summed_for_every_kind.
+
+(* non-vacuity / witness of the stale list: y = x*x; inner: z = 3y, g = y*z; only g seeded.  Filled after nesting the
+   outer sig_out lacks z and g, the member tree and the sensitivities are those of the network filled before nesting *)
+Example C02_stale_sig_out_nonvacuous :
+  exists o_late o_early : obj (@spec Z),
+    sbuilt nb_nest_then_fill nb_pool = Some o_late /\ sbuilt nb_fill_then_nest nb_pool = Some o_early /\
+    obj_outs spec_outs o_late = [1]%nat /\ obj_outs spec_outs o_early = [1; 2; 3]%nat /\
+    bare o_late = bare o_early /\
+    net_ok 4 (dims_of [2; 2; 2; 2]%nat) (obj_stree o_late) = true /\
+    show_c 4 (bwd_node (dims_of [2; 2; 2; 2]%nat) (to_node (obj_stree o_late)) (cenv_of nb_seeds)) = nb_expected.
+Proof. exact nb_facts. Qed.
+Print Assumptions C02_stale_sig_out_nonvacuous.
 
 (* ---- why wt_ref is needed (both inputs are outside the admissible slices of C18; documentation) *)
 Open Scope Z_scope.
